@@ -57,4 +57,31 @@ theorem takeLines_append (x y cur : Bytes) (hc : nl ∉ cur) :
     · rename_i hb
       rw [ih (b :: cur) (by simp only [List.mem_cons, not_or]; exact ⟨fun e => hb e.symm, hc⟩)]
 
+/-! ### group -/
+
+theorem foldl_write_buff (g : GW) (chunks : List Bytes) :
+    (chunks.foldl GW.write g).buff = g.buff ++ chunks.flatten ∧
+    (chunks.foldl GW.write g).begin_ = g.begin_ ∧ (chunks.foldl GW.write g).end_ = g.end_ ∧
+    (chunks.foldl GW.write g).errorOnly = g.errorOnly := by
+  induction chunks generalizing g with
+  | nil => simp
+  | cons p ps ih =>
+    simp only [List.foldl_cons, List.flatten_cons]
+    obtain ⟨a, b, c, d⟩ := ih (g.write p)
+    exact ⟨by rw [a]; simp [GW.write], by rw [b]; rfl, by rw [c]; rfl, by rw [d]; rfl⟩
+
+/-- what a group writer emits, in closed form, for any chunking -/
+theorem GW.run_eq (g : GW) (chunks : List Bytes) (failed : Bool) :
+    g.run chunks failed =
+      if (g.errorOnly && !failed) || (g.buff ++ chunks.flatten = []) then []
+      else [g.begin_ ++ (g.buff ++ chunks.flatten) ++ g.end_] := by
+  obtain ⟨h1, h2, h3, h4⟩ := foldl_write_buff g chunks
+  simp only [GW.run, GW.close, h1, h2, h3, h4]
+  by_cases hq : (g.errorOnly && !failed) = true
+  · simp [hq]
+  · simp only [hq, Bool.false_eq_true, if_false, Bool.false_or]
+    by_cases hz : g.buff ++ chunks.flatten = []
+    · simp [hz]
+    · simp [hz]
+
 end TaskModel.Output
